@@ -36,6 +36,10 @@ def gen(seed, tier):
         payloads.append({"id": pid, "flavour": target, "via": "execute", "steps": steps, "args": rng.choice(ARGS), "kwargs": rng.choice(KWARGS)})
         if rng.random() < 0.15:
             payloads[-1]["times"] = rng.choice([2, 3])  # the same callable object executed again: it has to run again
+        if rng.random() < 0.3:
+            # any callable will do: a partial, a bound method, a callable instance, a plain callable
+            # handing back the coroutine
+            payloads[-1]["callable"] = rng.choice(["partial", "method", "instance", "unhashable-instance"] + (["lambda"] if target != "threading" else []))
         ctx = rng.choice(["driver", "driver", "thread-payload", "coroutine-payload"])
         if ctx == "coroutine-payload" and (co_flavour is None or co_flavour == target):
             ctx = "driver"
